@@ -149,3 +149,80 @@ theorem sim_observe (S : Sys K V C B R T) {Good} (hA : Adequate S Good) (n m : N
   rw [← h.height, hg]
 
 end NeoModel.Ledger
+
+-- ---------------------------------------------------------------------------------------------
+-- schedules without restart: no assumption on the natives at all
+namespace NeoModel.Ledger
+
+variable {K V C B R T TX : Type} [DecidableEq K]
+
+/-- agreement of two nodes including the caches (no restart involved). -/
+structure SimEq (S : Sys K V C B R T) (n m : Node K V C R TX) : Prop where
+  height : n.height = m.height
+  view : stateView S n.read = stateView S m.read
+  last : n.last = m.last
+  cache : n.cache = m.cache
+
+def noRestart : List (Step K B TX) → Bool
+  | [] => true
+  | .restart :: _ => false
+  | _ :: ss => noRestart ss
+
+theorem simEq_local (S : Sys K V C B R T) (n m : Node K V C R TX) (s : Step K B TX)
+    (hs : isBlock s = false) (hr : s ≠ Step.restart) (h : SimEq S n m) : SimEq S (step S n s) m := by
+  cases s with
+  | addBlock b => simp [isBlock] at hs
+  | restart => exact absurd rfl hr
+  | flush =>
+    have hrd : (step S n (Step.flush : Step K B TX)).read = n.read := flush_read n
+    exact ⟨h.height, by rw [hrd]; exact h.view, h.last, h.cache⟩
+  | gc ks =>
+    have hrd : stateView S (step S n (Step.gc ks : Step K B TX)).read = stateView S n.read := by
+      funext k
+      simp only [stateView]
+      by_cases hk : S.stateKey k = true
+      · simp only [hk, if_true, step, Node.read]
+        apply readLayers_congr
+        simp only [removeKeys]
+        have : (List.filter (fun k => !S.stateKey k) ks).contains k = false := by
+          simp [List.mem_filter, hk]
+        rw [this]; simp
+      · simp [hk]
+    exact ⟨h.height, by rw [hrd]; exact h.view, h.last, h.cache⟩
+  | poolTx t => exact ⟨h.height, h.view, h.last, h.cache⟩
+
+theorem simEq_block (S : Sys K V C B R T)
+    (hst : ∀ rd c h b, S.apply rd c h b = S.apply (stateView S rd) c h b)
+    (n m : Node K V C R TX) (b : B) (h : SimEq S n m) :
+    SimEq S (step S n (.addBlock b)) (step S m (.addBlock b)) := by
+  have hn := hst n.read n.cache (n.height + 1) b
+  have hm := hst m.read m.cache (m.height + 1) b
+  have e : S.apply n.read n.cache (n.height + 1) b = S.apply m.read m.cache (m.height + 1) b := by
+    rw [hn, hm, h.view, h.cache, h.height]
+  have hlast : ∀ x : Node K V C R TX, (step S x (Step.addBlock b : Step K B TX)).last = (S.apply x.read x.cache (x.height + 1) b).2.2 := fun _ => rfl
+  have hcache : ∀ x : Node K V C R TX, (step S x (Step.addBlock b : Step K B TX)).cache = (S.apply x.read x.cache (x.height + 1) b).2.1 := fun _ => rfl
+  have hheight : ∀ x : Node K V C R TX, (step S x (Step.addBlock b : Step K B TX)).height = x.height + 1 := fun _ => rfl
+  refine ⟨by rw [hheight, hheight, h.height], ?_, by rw [hlast, hlast, e], by rw [hcache, hcache, e]⟩
+  rw [step_block_read, step_block_read, stateView_overlay S _ n.read, stateView_overlay S _ m.read, e, h.view]
+
+theorem simEq_run_ref (S : Sys K V C B R T)
+    (hst : ∀ rd c h b, S.apply rd c h b = S.apply (stateView S rd) c h b) (σ : List (Step K B TX)) :
+    ∀ (n m : Node K V C R TX), noRestart σ = true → SimEq S n m →
+      SimEq S (run S n σ) (run S m (blocksOnly (blocksOf σ))) := by
+  induction σ with
+  | nil => intro n m _ h; simpa [run, blocksOf, blocksOnly] using h
+  | cons s ss ih =>
+    intro n m hn h
+    cases s with
+    | addBlock b =>
+      simp only [run, blocksOf, blocksOnly, List.map]
+      exact ih _ _ (by simpa [noRestart] using hn) (simEq_block S hst n m b h)
+    | restart => simp [noRestart] at hn
+    | flush => simp only [run, blocksOf]; exact ih _ _ (by simpa [noRestart] using hn) (simEq_local S n m _ rfl (by simp) h)
+    | gc ks => simp only [run, blocksOf]; exact ih _ _ (by simpa [noRestart] using hn) (simEq_local S n m _ rfl (by simp) h)
+    | poolTx t => simp only [run, blocksOf]; exact ih _ _ (by simpa [noRestart] using hn) (simEq_local S n m _ rfl (by simp) h)
+
+theorem simEq_observe (S : Sys K V C B R T) (n m : Node K V C R TX) (h : SimEq S n m) : observe S n = observe S m := by
+  simp only [observe, h.height, h.view, h.last, h.cache]
+
+end NeoModel.Ledger
